@@ -185,3 +185,37 @@ Fixpoint oracle_deltas (colors : Z) (i : nat) (l : pen) (obs : list (bool * pen 
         let l' := if is_set then logical_set l p else logical_ch l p in
         if delta_okb colors l l' delta final then oracle_deltas colors (S i) l' rest else PBadAt i 3
   end.
+
+(* ---- the three facts about the pen path that the C09 / C12 developments use; proved in
+   TermPenProofs.v (stated here so that they can be developed independently) *)
+(* the driver's chpen on the VT: the attributes of the delta take their encoded value, the
+   others keep theirs; with the reset shortcut everything is default *)
+Definition chpen_core_stmt : Prop :=
+  forall colon rgb8 (delta final : pen) (v : vt),
+    pen_in_range delta -> a_faint (v_sgr v) = false ->
+    exists ts, xterm_chpen chpen_params_capacity colon rgb8 delta final = Some ts /\
+      let v' := vt_run ts v in
+      v' = set_sgr v (v_sgr v') /\ a_faint (v_sgr v') = false /\
+      ((forall a, delta a = None) -> ts = []) /\
+      (if is_nondefault final || pen_emptyb delta
+       then forall a, vt_attr (v_sgr v') a =
+                      match delta a with Some x => enc colon rgb8 a x | None => vt_attr (v_sgr v) a end
+       else v_sgr v' = default_attrs).
+(* a pen without non-default attributes stands for the default rendition *)
+Definition nondefault_enc_stmt : Prop :=
+  forall colon rgb8 (p : pen) a x, pen_in_range p -> is_nondefault p = false -> p a = Some x ->
+    enc colon rgb8 a x = vt_attr default_attrs a.
+(* term.c's delta encoder: the new cache is the converted new logical pen, the delta holds
+   exactly the new values of what changed (possibly more, never something else), and nothing
+   when the logical pen did not change *)
+Definition term_pen_stmt : Prop :=
+  forall colors (is_set : bool) (l tp p : pen),
+    0 <= colors -> pen_in_range l -> pen_in_range p -> (forall a, tp a = cache_of colors l a) ->
+    let l' := if is_set then logical_set l p else logical_ch l p in
+    exists tp' delta,
+      (if is_set then term_setpen else term_chpen) colors tp p = Some (tp', delta) /\
+      pen_in_range l' /\ pen_in_range tp' /\ pen_in_range delta /\
+      (forall a, tp' a = cache_of colors l' a) /\
+      (forall a, delta a = None \/ delta a = tp' a) /\
+      (forall a, tp' a <> tp a -> delta a = tp' a) /\
+      ((forall a, l' a = l a) -> forall a, delta a = None).
